@@ -1,5 +1,6 @@
 ---------------------------- MODULE IntegrationJudge ----------------------------
 (* observations: q = nearest integer of (result - y0) * den, tight; for quadrature also swapped (b, a), the
+   error-estimate class; halfinf: value of the adaptive overload on [a, +inf) / (-inf, a] (or the bounds swapped), q at 1e-8;
    error-estimate class ("zero" iff below 1e-12 of the scale) and has = the optional holds a value *)
 EXTENDS IntegrationExact, Judge
 Check(name, b) == IF b THEN {} ELSE {name}
@@ -9,6 +10,8 @@ Fails(o) ==
   THEN Check("quadrature:value", o.has = 1 /\ o.tight /\ o.q = Times(MonomialIntegral(o.k, o.a, o.b), o.den))
        \cup Check("quadrature:adaptive", o.hasad = 0 \/ (o.tightad /\ o.qad = Times(MonomialIntegral(o.k, o.a, o.b), o.den)))
        \cup Check("quadrature:error-estimate", o.k > 13 \/ o.err = "zero")
+  ELSE IF o.kind = "halfinf"
+  THEN Check("quadrature:half-infinite:" \o o.side, o.has = 1 /\ o.tight /\ o.q = Times(HalfInfiniteIntegral(o.side, o.m, o.a, o.swapped), o.den))
   ELSE Check(o.scheme \o ":final-value", o.tight /\ o.q = Times(MonomialIntegral(o.k, o.ti, o.tf), o.den))
        \cup Check(o.scheme \o ":final-time", o.k # 0 \/ (o.tight /\ o.q = o.tf - o.ti))
 ASSUME JudgeAll(Fails)
